@@ -122,6 +122,12 @@ def oracleC04 (c : TCase) : Verdict :=
   match contentLengthOf c with
   | none => .ok
   | some N =>
+  -- a declared length that is no u64 is no declared length: the request never gets as far as a body
+  if N ≥ 18446744073709551616 then
+    (match c.lines.find? (fun t => (t.kw == "bwrite" || t.kw == "bwriten" || t.kw == "cbwrite" || t.kw == "write") &&
+                                   (match t.res with | ["bytes", _, o] => o != "-" | _ => false)) with
+     | some t => .fail s!"bytes were written for a request whose Content-Length {N} does not fit 64 bits: {t.raw.take 120}"
+     | none => .ok) else
   -- POST / PUT / PATCH over HTTP/1.1 (POST also over 1.0) whose only header is the Content-Length: nothing else could be wrong with it
   let plainSized := match firstNew c with
     | some t =>
